@@ -290,8 +290,79 @@ func timers() {
 	hook.Ev("=timers", stopped, el, again, order)
 }
 
+type cfg struct {
+	id  int
+	w   [3]int
+	tag string
+}
+
+func (c cfg) report(tok int, res chan int, wg *sync.WaitGroup) {
+	hook.Start(tok)
+	hook.Y()
+	res <- c.id*100000 + c.w[0]*100 + len(c.tag)
+	wg.Done()
+	hook.Exit(tok)
+}
+
+// goArgs: function value, receiver and arguments of a go statement are evaluated (copied) by
+// the go statement; the parent keeps changing its own variables afterwards.
+func goArgs() {
+	var wg sync.WaitGroup
+	res := make(chan int, 16)
+	c := cfg{1, [3]int{1, 2, 3}, "a"}
+	arr := [2]int{7, 8}
+	fs := []func(int) int{func(x int) int {
+		return x + 1
+	}, func(x int) int {
+		return x * 2
+	}}
+	n := 2 + hook.Choose(2)
+	for i := 0; i < n; i++ {
+		c.id = i + 1
+		c.w[0] = i * 10
+		c.tag += "b"
+		arr[1] = i
+		k := i % 2
+		wg.Add(3)
+		go func(tok int, c cfg, a [2]int) {
+			hook.Start(tok)
+			hook.Y()
+			res <- c.id*1000 + c.w[0]*10 + a[1] + len(c.tag)
+			wg.Done()
+			hook.Exit(tok)
+		}(hook.Spawn(), c, arr)
+		go c.report(hook.Spawn(), res, &wg)
+		go func(tok int, f func(int) int) {
+			hook.Start(tok)
+			hook.Y()
+			res <- f(20)
+			wg.Done()
+			hook.Exit(tok)
+		}(hook.Spawn(), fs[k])
+		c.id = -1
+		c.w[0] = -5
+		c.tag = ""
+		arr[1] = -9
+		fs[k] = func(x int) int {
+			return -x
+		}
+		hook.Y()
+		fs[k] = fs[1-k]
+		c.tag = "a"
+	}
+	wg.Wait()
+	close(res)
+	sum := 0
+	for v := range res {
+		sum += v
+	}
+	hook.Ev("=goargs", n, sum)
+}
+
 func Main() {
-	switch hook.Choose(5) {
+	switch hook.Choose(6) {
+	case 5:
+		goArgs()
 	case 0:
 		atomics()
 	case 1:
